@@ -471,8 +471,58 @@ def diff_class(a, b):
     return "own-step"
 
 
+def timer_neighbour_worker(a):
+    """Real timers next to each other: B is announced and stays silent; A is announced a fraction of a second later, completes and is
+    soft-held by an unanswered query.  Each request has its own 2 s timeout: A may be accepted only when ITS timeout has expired.  The
+    wall clock is used one-sidedly - an acceptance read back earlier than 2 s after A's announcement was written is premature whatever
+    the machine's load (delays only make it later)."""
+    import time
+    b, seed, gap = a["build"], a["seed"], a["gap"]
+    rng = random.Random(seed)
+    cfg = proto.Config([("login.svc", rng.choice(["login", "combined"]))], timeout=2)
+    s = proto.Session(b, cfg, leaks=True)
+    res = {"viol": [], "stats": {"timer_neighbour_runs": 1, "timer_neighbour_accepts_seen": 0}, "inconc": [], "hash": vcommon.h(["tn", seed, gap]), "hashes": []}
+    ida, idb = rng.sample([3, 9, 40, 1029, 70000], 2)
+    nb = a.get("neighbours", 1)
+    try:
+        for k in range(nb):
+            s.do({"t": "announce", "id": idb + 100 * k, "ip": "192.0.2.%d" % (10 + k), "port": 1001})
+            if rng.random() < 0.5:
+                s.do({"t": "nick", "id": idb + 100 * k, "name": "nb"})
+        time.sleep(gap)
+        ta = time.time()
+        s.do({"t": "announce", "id": ida, "ip": "192.0.2.2", "port": 1002})
+        for ev in ({"t": "password", "id": ida, "text": "+x alice pw"}, {"t": "host", "id": ida, "name": "ha"}, {"t": "ident", "id": ida, "name": "ia"},
+                   {"t": "nick", "id": ida, "name": "na"}, {"t": "userinfo", "id": ida, "user": "ua", "real": "A"}, {"t": "hurry", "id": ida}):
+            s.do(ev)
+        seen_at = None
+        while time.time() < ta + 2.8 and not s.dead and seen_at is None:
+            time.sleep(0.05)
+            out = s.do({"t": "noise", "line": "-1 M irc.example.net 1"})
+            now = time.time()
+            for ln in out or []:
+                c = proto.classify(ln)
+                if c and c["kind"] == "client" and c["id"] == ida and c["cmd"] in "DR" and seen_at is None:
+                    seen_at = now - ta
+                    res["stats"]["timer_neighbour_accepts_seen"] += 1
+        s.finish()
+    except Exception:
+        s.kill()
+        raise
+    if seen_at is not None and seen_at < 2.0:
+        res["viol"].append(("C07", "neighbour-timer", "neighbour-timer",
+                            "client %d, soft-held by an unanswered query, was accepted %.2f s after ITS announcement although the request timeout is 2 s; %d silent client(s) had "
+                            "been announced %.2f s before it (their timer fired for it)\n%s" % (ida, seen_at, nb, gap, prun.render_trace(s.trace, 30)),
+                            {"seed": seed, "gap": gap, "neighbours": nb, "timer_neighbour": True}))
+    if seen_at is None:
+        res["inconc"].append("a real-timer run saw no acceptance within 2.8 s")
+    return res
+
+
 def run(chk, tier, scale=1.0):
     b = prun.build_daemon("c07-" + tier)
+    tn = vcommon.pmap(timer_neighbour_worker, [dict(build=b, seed=chk.seed * 31 + k, gap=[0.15, 0.25, 0.35, 0.5][k % 4], neighbours=[1, 1, 3][k % 3])
+                                               for k in range(int((12 if tier == "quick" else 96) * max(scale, 0.34)))])
     nsets = int((48 if tier == "quick" else 500) * scale)
     jobs = []
     for i in range(nsets):
@@ -510,6 +560,13 @@ def run(chk, tier, scale=1.0):
         jobs.append(dict(build=b, config=cfg.to_json(), seed=rng.randrange(1 << 30), nclients=rng.choice([18, 24, 30]), length=9, nmerges=3 if tier == "quick" else 8,
                          early_comeback=(i % 3 != 2)))
     res = vcommon.pmap(_worker_wrap, jobs)
+    for r in tn:
+        chk.add_case(r["hash"], True)
+        chk.merge_counts(r["stats"])
+        for w in r["inconc"]:
+            chk.inconc(w)
+        for (p, rule, sig, text, wit) in r["viol"]:
+            chk.violation(Violation(p, rule, sig, text, wit))
     for r in res:
         for hsh in r["hashes"] or [r["hash"]]:
             chk.add_case(vcommon.h([r["hash"], hsh]), r["stats"]["client_conversations_compared"] > 0)
@@ -524,7 +581,7 @@ def run(chk, tier, scale=1.0):
                 "symbolically to 'what I await from service s'; each script is run alone (reference conversation) and in random / round-robin / bursty order-preserving "
                 "interleavings; the projection of the daemon's output on each client (its id, X lines carrying its id; serial renumbered) grouped by the client's own events "
                 "must equal the reference, and no line about a client may appear in another client's step; every second interleaving is also written to a fresh daemon in ONE piece "
-                "(no sync lines) and must give the same stdout; guarded table audit every 50 steps; directed sets: a leaver / a client that retries after AGAIN next to a client waiting on a service that a reload removes; a holder answered AGAIN / MORE whose id comes back and receives the late answer to the first holder; a third of the sets has 1-2 SIGUSR1 reloads switching the service table at a fixed "
+                "(no sync lines) and must give the same stdout; guarded table audit every 50 steps; directed sets: a leaver / a client that retries after AGAIN next to a client waiting on a service that a reload removes; a holder answered AGAIN / MORE whose id comes back and receives the late answer to the first holder; real-timer runs (2 s timeout, no hook-driven expiry): a soft-held client announced 0.15-0.5 s after one or three silent ones must not be accepted before ITS 2 s are over (one-sided wall clock); a third of the sets has 1-2 SIGUSR1 reloads switching the service table at a fixed "
                 "place of every client's script (solo reference with the reloads at the same places); scripts may re-use their id while a query of the previous holder is unanswered "
                 "and then receive the late answer to the previous holder; sets of 18-30 clients drive the serials into two hex digits; "
                 "a case = one interleaving of one script set (distinct by hash); non-trivial = conversations were compared")
@@ -549,6 +606,11 @@ def _worker_wrap(a):
 def replay(chk, rep):
     b = prun.build_daemon("c07-replay")
     w = rep["witness"]
+    if w.get("timer_neighbour"):
+        r = timer_neighbour_worker(dict(build=b, seed=w["seed"], gap=w["gap"], neighbours=w["neighbours"]))
+        for v in r["viol"]:
+            print(v[3])
+        return 1 if r["viol"] else 0
     a = dict(build=b, config=w["config"], seed=w["seed"], nclients=w.get("nclients", 3), length=w.get("length", 12), nmerges=1, merges=[w["order"]],
              directed=w.get("directed"), early_comeback=w.get("early_comeback"), reload=w.get("reload"))
     r = _worker(a)
